@@ -391,6 +391,8 @@ async fn run_case(req: Json) -> Json {
     if !call_delay.is_zero() {
         tokio::time::sleep(call_delay).await;
     }
+    let written_at_call: Vec<usize> = obs.iter().map(|o| o.written.load(Ordering::SeqCst)).collect();
+    let responses_at_call: Vec<usize> = obs.iter().map(|o| o.responses.load(Ordering::SeqCst)).collect();
     let t_call = Instant::now();
     let h = handle.clone();
     let shutdown_task = tokio::spawn(async move {
@@ -478,9 +480,7 @@ async fn run_case(req: Json) -> Json {
 
     // ---- phase 4: wind down -------------------------------------------------------------------
     let _ = releaser.await;
-    // give in-flight work a chance to complete on its own before the gates are forced open
     let all_done = |obs: &Vec<Arc<ClientObs>>| obs.iter().all(|o| o.script_done.load(Ordering::SeqCst));
-    wait_until(Duration::from_millis(1500), || all_done(&obs)).await;
     gates.release_all();
     wait_until(Duration::from_secs(3), || all_done(&obs)).await;
     let _ = sig.finish.send(true);
@@ -491,7 +491,8 @@ async fn run_case(req: Json) -> Json {
         let v = View::now();
         v.count("w_notify") == n_workers as usize
             && v.count("acc_exit") == 1
-            && v.count("w_recv") + v.count("w_drain") == v.count("c_end")
+            // a task dropped before its first poll never ran its body: no `c_end` for it
+            && v.count("c_poll") == v.count("c_end")
     })
     .await;
     tokio::time::sleep(Duration::from_millis(2)).await;
@@ -560,8 +561,11 @@ async fn run_case(req: Json) -> Json {
     }
     let conns_obs: Vec<Json> = obs
         .iter()
-        .map(|o| {
+        .enumerate()
+        .map(|(i, o)| {
             json!({
+                "written_at_call": written_at_call[i],
+                "responses_at_call": responses_at_call[i],
                 "connected": o.connected.load(Ordering::SeqCst),
                 "written": o.written.load(Ordering::SeqCst),
                 "responses": o.responses.load(Ordering::SeqCst),
